@@ -862,6 +862,10 @@ def fit_call(sess, op, step, out, stats, log):
         # the start lies outside the domain of the cost (e.g. a count likelihood of a slightly negative
         # prediction): "not worse than its start" has no meaning there
         stats["start_cost_not_finite"] = stats.get("start_cost_not_finite", 0) + 1
+    elif not np.isfinite(c1) and d["cls"] in ("PoissonLoss", "GammaLoss", "NegBinomLoss") and _prediction_near_zero(sess, d, xhat):
+        # the returned point predicts (numerically) zero for a count / gamma likelihood: the integrator's output is
+        # +-1e-12 there and the cost is NaN for the negative sign - outside the domain the losses are stated on
+        stats["returned_cost_undefined_near_zero_prediction"] = stats.get("returned_cost_undefined_near_zero_prediction", 0) + 1
     elif not (c1 <= c0 + 1e-9 * abs(c0) + 1e-12):
         out.append(fail("C18.descent", step, "cost at the returned point %r exceeds cost at the start %r (start %s -> %s)" % (c1, c0, start.tolist(), xhat.tolist())))
     if op.get("at_truth"):
@@ -870,6 +874,14 @@ def fit_call(sess, op, step, out, stats, log):
             out.append(fail("C18.truth", step, "started at the generating parameters %s of noise-free data, fit returned %s" % (truth.tolist(), xhat.tolist())))
     if np.any(np.abs(xhat - start) > 1e-9):
         stats["fits_moved"] = stats.get("fits_moved", 0) + 1
+
+
+def _prediction_near_zero(sess, d, free, eps=1e-6):
+    try:
+        _, yhat = ref_cost(sess, d, list(free))
+        return bool(np.min(yhat) < eps)
+    except Exception:
+        return True
 
 
 # ---------------------------------------------------------------------------------------------------
